@@ -40,13 +40,15 @@ fn check_trait_accessors<'a, T: ClientHello<'a>>(
     vassert!(same_opt(ch.ext(), ext), "C15.accessor.ext");
     vassert!(core::ptr::eq(ch.ciphers(), ciphers), "C15.accessor.ciphers");
     vassert!(core::ptr::eq(ch.comp(), comp), "C15.accessor.comp");
-    if random.len() == 32 {
+    if random.len() >= 4 {
+        // first four bytes / the remaining bytes (28 of them for the standard 32-byte random)
         vassert!(ch.rand_time() == be32(random, 0), "C15.accessor.rand_time_is_be_u32_of_first_four_random_bytes");
         let rb = ch.rand_bytes();
-        vassert!(rb.len() == 28 && rb.as_ptr() == random[4..].as_ptr(), "C15.accessor.rand_bytes_are_the_remaining_28");
-        vcover!(ch.rand_time() == 0xdead_beef, "C15.cover.rand_time_nonzero");
+        vassert!(rb.len() == random.len() - 4 && rb.as_ptr() == random[4..].as_ptr(), "C15.accessor.rand_bytes_are_the_remaining_bytes");
+        vcover!(random.len() == 32 && ch.rand_time() == 0xdead_beef, "C15.cover.rand_time_nonzero");
+        vcover!(random.len() == 34, "C15.cover.long_random");
     } else {
-        // other lengths: the property defines no value; the calls must return
+        // fewer than four bytes: the property defines no value; the calls must return
         let _ = ch.rand_time();
         let _ = ch.rand_bytes();
         vcover!(random.len() == 3, "C15.cover.short_random");
